@@ -139,6 +139,21 @@ func genC20(rng *hx.Rng, tier string, w *hx.Writer) error {
 		}
 		un := rng.Bytes(64)
 		chk("SetBytes(64 bytes)", edSuite.Scalar().SetBytes(un), new(big.Int).Mod(leInt(un), EdL))
+		// one scalar OBJECT assigned several times (a large value, then small ones with leading zero
+		// bytes, SetInt64 of negative and small numbers, Zero / One): every assignment overwrites
+		reuse := edSuite.Scalar().SetBytes(leBytes(new(big.Int).Sub(EdL, big.NewInt(1)), 32))
+		small := new(big.Int).Rsh(a, uint(8*(1+rng.Intn(20))))
+		chk("reused.SetBytes(small)", reuse.SetBytes(leBytes(small, 32)), small)
+		chk("reused.SetBytes(a)", reuse.SetBytes(leBytes(a, 32)), a)
+		chk("reused.SetInt64(-1)", reuse.SetInt64(-1), new(big.Int).Sub(EdL, big.NewInt(1)))
+		chk("reused.SetInt64(2)", reuse.SetInt64(2), big.NewInt(2))
+		chk("reused.Set(b)", reuse.Set(sb), b)
+		chk("reused.Zero", reuse.Zero(), big.NewInt(0))
+		chk("reused.SetBytes(64 bytes)", reuse.SetBytes(un), new(big.Int).Mod(leInt(un), EdL))
+		chk("reused.One", reuse.One(), big.NewInt(1))
+		// the operands are still what they were
+		chk("a after use", sa, a)
+		chk("b after use", sb, b)
 		oracle := "ok"
 		if problems != "" {
 			oracle = hx.Fail("scalar-api", problems)
